@@ -1,3 +1,4 @@
+import GitSizer.Proofs.GraphRun7
 import GitSizer.Proofs.History
 import GitSizer.Proofs.GraphTrees
 /-! # C01 — Census of reachable objects is exact
@@ -43,5 +44,27 @@ theorem each_tree_recorded_once (r : Repo) (ok : TreesOK r)
 
 /-- a saturating census over any enumeration of a set is the clamp of the true sum -/
 theorem census_sum (c : Nat) (l : List Nat) : satSum c l = min l.sum c := satSum_eq c l
+
+
+/-- **Census of a whole run is exact.** For every repository description and every valid delivery
+    schedule: the run completes without panic and the eight census counters and the reference
+    count are the (saturated) true number / total size / total entry count of the delivered
+    objects — each object counted exactly once. (Per-object sizes enter `UniqueTreeSize` and
+    `UniqueCommitSize` through 32-bit registers, as in the code.) -/
+theorem census_exact (r : Repo) (ops : List Op) (v : ValidRun r ops) :
+    ∃ st, runOps r ops {} = .ok st ∧
+      st.hist.UniqueBlobCount.toNat = min (blobsOf ops).length (2^32 - 1) ∧
+      st.hist.UniqueBlobSize.toNat = min ((blobsOf ops).map r.blobSize).sum (2^64 - 1) ∧
+      st.hist.UniqueTreeCount.toNat = min (treesOf ops).length (2^32 - 1) ∧
+      st.hist.UniqueTreeSize.toNat = min ((treesOf ops).map fun t => min (Repo.sizeOf r t) (2^32 - 1)).sum (2^64 - 1) ∧
+      st.hist.UniqueTreeEntries.toNat = min ((treesOf ops).map fun t => min (r.entries t).length (2^32 - 1)).sum (2^64 - 1) ∧
+      st.hist.UniqueCommitCount.toNat = min (commitsOf ops).length (2^32 - 1) ∧
+      st.hist.UniqueCommitSize.toNat = min ((commitsOf ops).map fun c => min (Repo.sizeOf r c) (2^32 - 1)).sum (2^64 - 1) ∧
+      st.hist.UniqueTagCount.toNat = min (tagsOf ops).length (2^32 - 1) ∧
+      st.hist.ReferenceCount.toNat = min (refsOf ops) (2^32 - 1) := by
+  obtain ⟨st, h, _, res⟩ := v.result
+  have b := res.blobs; have t := res.trees; have c := res.commits; have g := res.tags; have rf := res.refs
+  simp only [blobNums, treeNums, commitNums, tagNums, refNums, List.cons.injEq, and_true] at b t c g rf
+  exact ⟨st, h, b.1, b.2.1, t.1, t.2.1, t.2.2.1, c.1, c.2.1, g.1, rf⟩
 
 end GitSizer.C01
